@@ -13,9 +13,9 @@ import (
 
 func init() {
 	register(&propDef{
-		id: "C22",
+		id:      "C22",
 		explain: "Structural necessary conditions of 'compressed bodies decode to the original': (R1) every call of a function value produced by stackless.NewFunc has its 'queue full' bool result tested, and on the false outcome the wrapped function is run inline (or the bool is returned to a caller for which the same holds) - so work is never silently skipped under load; (R2) the body compressors (methods of Response that install a compressed body stream) agree on their guards, on resetting Content-Length for streams and on the epilogue, and each one's encoding token, one-shot compressor and stream compressor reach the same compression package; (R3) each is called only under a true HasAcceptEncodingBytes test of the token it stores. Not decided: decode(encode(x)) = x, level clamping, the codecs themselves.",
-		run: runC22,
+		run:     runC22,
 	})
 }
 
